@@ -73,9 +73,13 @@ def start_case(n: int, ops: list, stages: list, seed: int) -> tuple:
     """Build one case; returns (coroutine of the workflow, judge state)."""
     pname = '>'.join(s[0] for s in stages)
     # the width bound is the block size of the last stage that has one
-    bs = ([1] + [s[1] for s in stages if s[0] != 'single'])[-1]
+    bs = ([1] + [s[1] for s in stages
+                 if s[0] not in ('single', 'retag')])[-1]
     circ = M.build(n, ops)
     ref = M.flatten(circ)
+    for s in stages:
+        if s[0] == 'retag':
+            ref = M.retagged(ref)
     ref_tl = M.timelines(n, ref)
     maxw = max((len(e[2]) for e in ref), default=0)
     passes: list = []
@@ -99,7 +103,7 @@ def finish_case(n: int, ops: list, stages: list, st: tuple,
     desc = f'{pname}(block_size={bs}) on {n} qudits: {M.describe(ops)}'
     if exc is not None:
         msg = f'{type(exc).__name__}: {exc}'
-        sizes = [s[1] for s in stages if s[0] != 'single']
+        sizes = [s[1] for s in stages if s[0] not in ('single', 'retag')]
         widest = max([maxw] + sizes[:-1])    # earlier stages make blocks
         if any(w in msg for w in WIDE_REFUSALS) and sizes \
                 and widest > min(sizes):
@@ -250,7 +254,8 @@ def _short(seq: list) -> str:
 def _tagno(params: tuple) -> str:
     if not params:
         return '-'
-    return str(round((params[0] - M.TAG0) / M.TAGSTEP))
+    x = (params[0] - M.TAG0) / M.TAGSTEP
+    return str(int(round(x))) if abs(x - round(x)) < 1e-9 else f'{x:.2f}'
 
 
 class JudgeBatch(BasePass):
